@@ -157,6 +157,8 @@ class DelayDriver(MachineDriver):
                                  "stored %r" % (choice[1], new[0][2], {"tag": exp[0][1]}))
                 else:
                     self.violate("delay-op:%s" % sig_op, "after %r callbacks %r ran, expected %r" % (choice, got, exp))
+        if self.ref:
+            self.expect_timer_by(min(v[0] for v in self.ref.values()), "delay")
         for n in ("a", "b", "c"):
             if self.dm.check(n) != (n in self.ref):
                 self.violate("check:%s" % sig_op, "check(%r) is %r but the delay is %s" %
